@@ -284,6 +284,13 @@ def generate(rng):
             else:
                 # documented: an iterable of BondList objects
                 op["as"] = rng.choice(["list", "list", "tuple", "generator", "iter"])
+            if sum(ms[x].n for x in op["rs"]) > 700:
+                # keep the registers small enough for the n x n views to stay cheap (hub lists have up to 300 atoms)
+                op["rs"] = op["rs"][:1]
+                op["plus"] = False
+                op.setdefault("as", "list")
+                if ms[op["rs"][0]].n > 700:
+                    continue
         elif r < 0.85:
             op = {"op": "remove_bonds", "r": a, "r2": rng.choice(lv)}
         elif r < 0.89:
